@@ -153,4 +153,105 @@ Section FORS.
     destruct B as (b1 & b2 & b3 & b4). unfold setKeyPairAddress, setTypeAndClear, keyPairAddress; simpl.
     rewrite b1, b2, b4. reflexivity.
   Qed.
+
+  (* ---------- FORS completeness ---------- *)
+  Lemma forsNodeS_len : hashes_ok P HS -> forall z l t kp sk pk i, length (forsNodeS HS l t kp sk pk z i) = n.
+  Proof. intros OK z; destruct z; intros; simpl; [apply (hF_len _ _ OK)|apply (hH_len _ _ OK)]. Qed.
+
+  (* (i·2^a + ind) >> j = i·2^(a-j) + (ind >> j) for j <= a *)
+  Lemma leaf_shiftr (i ind : N) (a j : nat) : (j <= a)%nat ->
+    N.shiftr (N.shiftl i (N.of_nat a) + ind) (N.of_nat j)
+    = N.shiftl i (N.of_nat (a - j)) + N.shiftr ind (N.of_nat j).
+  Proof.
+    intros H. rewrite !N.shiftl_mul_pow2, !N.shiftr_div_pow2.
+    replace (N.of_nat a) with (N.of_nat (a - j) + N.of_nat j) by lia.
+    rewrite N.pow_add_r, N.mul_assoc. apply N.div_add_l. apply N.pow_nonzero. lia.
+  Qed.
+
+  Lemma shiftl_even (i : N) (c : nat) : (1 <= c)%nat -> exists X, N.shiftl i (N.of_nat c) = 2 * X.
+  Proof.
+    intros H. exists (i * 2 ^ N.of_nat (c - 1)). rewrite N.shiftl_mul_pow2.
+    replace (N.of_nat c) with (1 + N.of_nat (c - 1)) by lia. rewrite N.pow_add_r. change (2 ^ 1) with 2. lia.
+  Qed.
+
+  Lemma even_add_lxor1 X y : N.lxor (2 * X + y) 1 = 2 * X + N.lxor y 1.
+  Proof.
+    pose proof (N.div_mod y 2 ltac:(lia)) as D. pose proof (N.mod_lt y 2 ltac:(lia)) as L.
+    remember (y / 2) as q eqn:Eq. clear Eq.
+    destruct (N.eqb_spec (y mod 2) 0) as [E|E].
+    - assert (Y : y = 2 * q) by lia. subst y.
+      replace (2 * X + 2 * q) with (2 * (X + q)) by lia. rewrite !lxor1_even. lia.
+    - assert (Y : y = 2 * q + 1) by lia. subst y.
+      replace (2 * X + (2 * q + 1)) with (2 * (X + q) + 1) by lia. rewrite !lxor1_odd. lia.
+  Qed.
+
+  Lemma even_add_land1 X y : N.land (2 * X + y) 1 = N.land y 1.
+  Proof.
+    rewrite !land1_mod. rewrite N.add_comm, N.mul_comm. apply N.mod_add. lia.
+  Qed.
+
+  Theorem forsS_complete : hashes_ok P HS -> forall l t kp indices sk pk,
+    (forall i, nth i indices 0 < 2 ^ N.of_nat (p_a P)) ->
+    forsPkFromSigS P HS l t kp indices (forsSignS P HS l t kp indices sk pk) pk = forsPkS P HS l t kp sk pk.
+  Proof.
+    intros OK l t kp indices sk pk Hind. unfold forsPkFromSigS, forsPkS. f_equal.
+    apply flat_map_seq_ext. intros i Hi. cbv zeta.
+    set (ind := nth i indices 0). set (a := p_a P).
+    set (authp := flat_map (fun j => forsNodeS HS l t kp sk pk j
+                   (N.shiftl (N.of_nat i) (N.of_nat (a - j)) + N.lxor (N.shiftr ind (N.of_nat j)) 1)) (seq 0 a)).
+    assert (Hap : length authp = (a * n)%nat).
+    { unfold authp. apply flat_map_seq_length. intros; apply forsNodeS_len; auto. }
+    assert (Hsk : length (forsSkS HS l t kp sk pk (forsLeafIdx P i ind)) = n) by apply (hPrf_len _ _ OK).
+    (* the i-th block of the signature *)
+    assert (Hblk : exists rest, skipn (i * ((a + 1) * n)) (forsSignS P HS l t kp indices sk pk)
+                                = (forsSkS HS l t kp sk pk (forsLeafIdx P i ind) ++ authp) ++ rest).
+    { unfold forsSignS. eexists. rewrite skipn_flat_map_seq; [reflexivity| |lia].
+      intros j _. cbv zeta. rewrite app_length. unfold forsSkS at 1. rewrite (hPrf_len _ _ OK).
+      rewrite (flat_map_seq_length _ 0 (p_a P) n) by (intros; apply forsNodeS_len; auto). fold a. lia. }
+    destruct Hblk as [rest Hblk].
+    replace (i * (a + 1) * n)%nat with (i * ((a + 1) * n))%nat by lia.
+    replace ((i * (a + 1) + 1) * n)%nat with (n + i * ((a + 1) * n))%nat by lia.
+    rewrite <- skipn_add, Hblk.
+    replace ((i + 1) * (a + 1) * n - (n + i * ((a + 1) * n)))%nat with (a * n)%nat by nia.
+    rewrite <- !app_assoc.
+    rewrite firstn_app_exact by lia. rewrite skipn_app_exact by lia. rewrite firstn_app_exact by lia.
+    (* climb *)
+    pose proof (climbS_node P HS (fun h x => mkA l t T_FORSTREE kp h x) (forsNodeS HS l t kp sk pk) pk a
+                  (forsLeafIdx P i ind) ind authp) as C.
+    specialize (C ltac:(intros; reflexivity)).
+    assert (Hauth : forall j, (j < a)%nat ->
+              chunk P j authp = forsNodeS HS l t kp sk pk j (N.lxor (N.shiftr (forsLeafIdx P i ind) (N.of_nat j)) 1)).
+    { intros j Hj. unfold chunk, authp. rewrite <- (app_nil_r (flat_map _ _)).
+      rewrite chunk_flat_map_seq; [|intros; apply forsNodeS_len; auto|lia]. simpl. f_equal.
+      unfold forsLeafIdx. fold a. rewrite leaf_shiftr by lia.
+      destruct (shiftl_even (N.of_nat i) (a - j) ltac:(lia)) as [X EX]. rewrite EX.
+      symmetry. apply even_add_lxor1. }
+    assert (Hbits : forall j, (j < a)%nat ->
+              N.land (N.shiftr ind (N.of_nat j)) 1 = N.land (N.shiftr (forsLeafIdx P i ind) (N.of_nat j)) 1).
+    { intros j Hj. unfold forsLeafIdx. fold a. rewrite leaf_shiftr by lia.
+      destruct (shiftl_even (N.of_nat i) (a - j) ltac:(lia)) as [X EX]. rewrite EX.
+      symmetry. apply even_add_land1. }
+    specialize (C Hauth Hbits a 0%nat ltac:(lia)).
+    change (N.of_nat 0) with 0 in C. rewrite N.shiftr_0_r in C.
+    change (forsNodeS HS l t kp sk pk 0 (forsLeafIdx P i ind))
+      with (hF HS pk (mkA l t T_FORSTREE kp 0 (forsLeafIdx P i ind)) (forsSkS HS l t kp sk pk (forsLeafIdx P i ind))) in C.
+    rewrite C. simpl. f_equal.
+    unfold forsLeafIdx. fold a. rewrite leaf_shiftr by lia. rewrite Nat.sub_diag. rewrite N.shiftl_0_r.
+    rewrite (shiftr_small ind) by apply Hind. lia.
+  Qed.
+
+  (* as coded: the FORS public key recomputed from forsSign's output is Tl over
+     the k tree roots forsNode computes, for every digest *)
+  Theorem fors_complete : hashes_ok P HS -> forall md sk pk ad ad1,
+    a_typ ad = T_FORSTREE -> eq23 ad1 ad ->
+    fst (forsPkFromSig P HS (fst (forsSign P HS md sk pk ad)) md pk ad1)
+    = forsPkS P HS (a_layer ad) (a_tree ad) (a_kp ad) sk pk.
+  Proof.
+    intros OK md sk pk ad ad1 Ht (e1 & e2 & e3 & e4).
+    rewrite (proj1 (forsPkFromSig_spec _ _ _ ad1 ltac:(congruence))), (proj1 (forsSign_spec _ _ _ ad Ht)).
+    rewrite e1, e2, e4. apply forsS_complete; auto.
+    intros i. destruct (Nat.lt_ge_cases i (length (base2b md (p_a P) (p_k P)))) as [L|L].
+    - pose proof (base2b_lt md (p_a P) (p_k P)) as F. rewrite Forall_forall in F. apply F. apply nth_In. exact L.
+    - rewrite nth_overflow by lia. apply N.neq_0_lt_0, N.pow_nonzero. lia.
+  Qed.
 End FORS.
